@@ -106,16 +106,17 @@ func fifoMutexScenarios() []hx.Scenario {
 
 func mkFifoMap(threads [][]string) *mc.Exec {
 	var (
-		m         fifo.Map[string]
-		mapLockID int
-		neverID   int
-		occ       = map[string]int{}
-		interest  = map[string]int{} // callers between Lock-call and Unlock-return, per key
-		grants    []lockCall
-		stalled   = map[string]bool{} // key held forever by an H operation
-		cur       = map[int]string{}  // thread -> key of the section it is in ("" = none)
-		curGot    = map[int]bool{}
-		names     = map[int]string{}
+		m        fifo.Map[string]
+		itemIDs  = map[int]bool{} // trace ids of per-key mutexes, recorded by their holders
+		neverID  int
+		scriptOf = map[int][]string{}
+		occ      = map[string]int{}
+		interest = map[string]int{} // callers between Lock-call and Unlock-return, per key
+		grants   []lockCall
+		stalled  = map[string]bool{} // key held forever by an H operation
+		cur      = map[int]string{}  // thread -> key of the section it is in ("" = none)
+		curGot   = map[int]bool{}
+		names    = map[int]string{}
 	)
 	leak := func(when string) {
 		keys := fifo.McMapKeys(m)
@@ -128,7 +129,6 @@ func mkFifoMap(threads [][]string) *mc.Exec {
 	}
 	body := func() {
 		m = fifo.NewMap[string]()
-		mapLockID = fifo.McMapLockID(m)
 		never := mc.NewChan[struct{}]()
 		neverID = never.ID()
 		for i, script := range threads {
@@ -136,12 +136,16 @@ func mkFifoMap(threads [][]string) *mc.Exec {
 			mc.GoNamed(fmt.Sprintf("t%d", i), func() {
 				id := mc.ThreadID()
 				names[id] = mc.ThreadName()
+				scriptOf[id] = script
 				for k, op := range script {
 					key := op[1:]
 					interest[key]++
 					cur[id], curGot[id] = key, false
 					m.Lock(key)
 					curGot[id] = true
+					if lid, ok := fifo.McMapItemLockID(m, key); ok {
+						itemIDs[lid] = true
+					}
 					grants = append(grants, lockCall{id, k})
 					occ[key]++
 					if occ[key] > 1 {
@@ -175,8 +179,14 @@ func mkFifoMap(threads [][]string) *mc.Exec {
 			return fmt.Errorf("deadlock: a caller never returned although no holder of its key is stalled\n%s in its operation on key %q (blocked on %s); stalled keys=%v parked=%v", t.Name, k, t.WaitOn, stalled, e.Parked())
 		}
 		leak("at final quiescence")
-		arr := lockArrivals(e.Trace, func(obj int) bool { return obj != mapLockID && obj != neverID && obj != 0 })
+		arr := lockArrivals(e.Trace, func(obj int) bool { return itemIDs[obj] })
 		if err := checkFIFO(arr, grants); err != nil {
+			return err
+		}
+		// arrival order at the map: the map-wide lock is whatever lock in the
+		// trace is not a per-key mutex (1-slot channel or sync.Mutex alike)
+		acqs := internalAcqs(e.Trace, func(obj int) bool { return itemIDs[obj] || obj == neverID })
+		if err := checkMapEntryOrder(acqs, scriptOf, names); err != nil {
 			return err
 		}
 		nb := 0
